@@ -3,7 +3,7 @@ CONSTANTS
   MaxLeaves = 4
   MaxArity = 4
   UnaryUpTo = 3
-  Pats = {1, 2}
+  Pats = {1, 3}
   Depth = 2
 INVARIANT L_Domain
 INVARIANT L_ReadOnly
